@@ -114,6 +114,9 @@ func RunJobs(jobs []any, nproc int, stall time.Duration, extraArgs ...string) []
 				stdout, _ := cmd.StdoutPipe()
 				errb := &tailBuf{}
 				cmd.Stderr = errb
+				if os.Getenv("VERIF_WORKER_STDERR") != "" {
+					cmd.Stderr = io.MultiWriter(errb, os.Stderr)
+				}
 				cmd.Env = os.Environ()
 				if err := cmd.Start(); err != nil {
 					results[first].Crashed = true
